@@ -55,6 +55,15 @@ def gen(ctx):
                 continue
             ps.append(symgen.payload(r, kind, ln))
     L, meta = [], []
+    force = set()
+    # payloads at the byte capacity of the largest symbol on which the cost model of the mode selection and the true bit
+    # lengths part company (incl. the byte-mode fallback of New): whatever New returns must encode and decode back
+    for sym in ('qr', 'mq', 'rm'):
+        for level, pl in symgen.rounding_adversarial(sym, ctx.tier == 'quick', ctx.seed):
+            for kanji in (0, 1):
+                force.add(len(L))
+                L.append(new_line(sym, level, kanji, level % 3, pl))
+                meta.append((sym, level, kanji, level % 3, pl))
     for i, p in enumerate(ps):
         for sym in ('qr', 'mq', 'rm'):
             if sym == 'mq' and len(p) > 40:
@@ -72,7 +81,7 @@ def gen(ctx):
     enc, idx = [], []
     for i, o in enumerate(out):
         d = symgen.parse_desc(o)
-        if d is not None and (len(meta[i][4]) <= 4 or i % 3 == 0 or ctx.tier == 'thorough'):
+        if d is not None and (i in force or len(meta[i][4]) <= 4 or i % 3 == 0 or ctx.tier == 'thorough'):
             sym = meta[i][0]
             enc.append(symgen.enc_line(sym, d[0], d[1], d[2], d[3]))
             idx.append(i)
